@@ -5,22 +5,26 @@ import os
 
 HERE = os.path.dirname(os.path.dirname(os.path.abspath(__file__)))
 
-CHECKS = {
-    'C14': dict(
-        text='Lean theorems over an executable model of the shared frame-reassembly loop '
-             '(feed_append, any_chunking, frames_roundtrip, chunked_frames, recv1_agrees: for every byte '
-             'stream, every chunking, every message list, by induction, no size bound) and of the legacy '
-             'handshake; the model is tied to the three real dataReceived loops, message.send/receive and '
-             'TwistedWrapper.process by a correspondence run on every check, and the prefix width is '
-             'regenerated from the struct formats in the source.',
-        note='Trusted: Lean kernel; axioms propext/Classical.choice/Quot.sound only; tools/translate.py; '
-             'harness fakes (transport, identity pickle shim, table-driven PGP fake). Assumed: Twisted delivers '
-             'nothing after loseConnection; PGP verify rejects the empty message. Real sockets and kernel '
-             'chunking are not exercised (the theorem proves independence from chunking).',
-        technique='Lean 4 proof by functional induction on the frame loop + differential correspondence',
-        design='7/C14',
-    ),
-}
+import importlib
+import sys
+
+sys.path.insert(0, HERE)
+
+
+def load_checks():
+    out = {}
+    for f in sorted(os.listdir(os.path.join(HERE, 'harness'))):
+        if len(f) == 6 and f.startswith('c') and f.endswith('.py') and f[1:3].isdigit():
+            src = open(os.path.join(HERE, 'harness', f)).read()
+            # evaluate only the MANIFEST literal, without importing the harness (it imports dawgie)
+            import ast
+            for n in ast.parse(src).body:
+                if isinstance(n, ast.Assign) and getattr(n.targets[0], 'id', '') == 'MANIFEST':
+                    out[f[:3].upper()] = eval(compile(ast.Expression(n.value), f, 'eval'))  # noqa: S307
+    return out
+
+
+CHECKS = load_checks()
 
 PENDING_REASON = 'check not built yet in this round of work; see DESIGN.md section 7 for the planned model and theorems'
 
@@ -47,7 +51,7 @@ def main():
         })
     m = {
         'version': 1,
-        'setup_cmd': 'cd lean && lake build DawgieVerif DawgieVerif.Model.All',
+        'setup_cmd': './setup.sh',
         'hooks': {
             'guard': 'AL_NIESSNER_DAWGIE_VERIF',
             'enable': 'no hooks are needed: the harness replaces module attributes of /repo/Python in-process (PYTHONPATH=/repo/Python)',
